@@ -303,6 +303,9 @@ def detect_kind(content, lf, crlf):
 
 def split_keep(data, nl):
     """Split bytes on nl keeping the terminators (last may be unterminated)."""
+    if not nl:
+        raise ValueError('empty newline')
+
     out = []
     pos = 0
 
@@ -614,6 +617,10 @@ def ref_content(kind, raw, options, inherited):
     try:
         lf, crlf = nl_bytes('unix', enc), nl_bytes('dos', enc)
     except (UnicodeError, LookupError):
+        raise Reject('codec cannot encode a newline')
+
+    if not lf or not crlf:
+        # (idna / punycode buffer their input: no newline bytes at all)
         raise Reject('codec cannot encode a newline')
 
     if le is None:
